@@ -318,6 +318,8 @@ class Folder(FileSystemItemABC):
         file.restore()
         self.files[file.uuid] = file
         self.deleted_files.pop(file.uuid, None)
+        # requests that name this file must reach the restored object, not a deleted namesake registered later
+        self._file_request_manager.add_request(file.name, RequestType(func=file._request_manager))
         return True
 
     def quarantine(self):
